@@ -16,6 +16,10 @@ pub struct Ref {
 
 impl Ref {
     pub fn from_mem(order: Order, nrows: usize, ncols: usize, mem: &[String]) -> Ref {
+        if nrows == 0 || ncols == 0 {
+            // element-less shapes (extents may be huge): no rows are materialised
+            return Ref { nrows, ncols, rows: Vec::new() };
+        }
         let rows = (0..nrows)
             .map(|r| {
                 (0..ncols)
@@ -29,6 +33,9 @@ impl Ref {
         Ref { nrows, ncols, rows }
     }
     pub fn transposed(&self) -> Ref {
+        if self.nrows == 0 || self.ncols == 0 {
+            return Ref { nrows: self.ncols, ncols: self.nrows, rows: Vec::new() };
+        }
         Ref {
             nrows: self.ncols,
             ncols: self.nrows,
@@ -37,6 +44,9 @@ impl Ref {
     }
     /// memory-order sequence for the given order
     pub fn mem(&self, order: Order) -> Vec<String> {
+        if self.nrows == 0 || self.ncols == 0 {
+            return Vec::new();
+        }
         match order {
             Order::RowMajor => self.rows.iter().flatten().cloned().collect(),
             Order::ColMajor => (0..self.ncols).flat_map(|c| (0..self.nrows).map(move |r| (r, c))).map(|(r, c)| self.rows[r][c].clone()).collect(),
@@ -73,6 +83,9 @@ impl<E: Elem> World<E> {
         }
         if (m.nrows() as u128) * (m.ncols() as u128) != m.size() as u128 {
             out.oracle_fail(&format!("{what}: {}x{} matrix holds {} elements", m.nrows(), m.ncols(), m.size()));
+            return;
+        }
+        if rf.nrows == 0 || rf.ncols == 0 {
             return;
         }
         for i in 0..rf.nrows {
@@ -137,7 +150,9 @@ impl<E: Elem> World<E> {
             "set_order_wr" => if arg.unwrap() != order { (arg.unwrap(), rf.transposed()) } else { (order, rf) },
             _ => unreachable!(),
         };
-        debug_assert_eq!(old_order, order);
+        if old_order != order {
+            out.oracle_fail(&format!("{op}: the matrix was in order {:?} although every operation so far should have left it in {:?}", old_order, order));
+        }
         self.refs[r] = Some(new_ref);
         match res {
             None => {
@@ -152,11 +167,103 @@ impl<E: Elem> World<E> {
         }
     }
 
+    /// reshape: acts on the memory-order sequence; anything but the same size is SizeMismatch
+    pub fn reshape(&mut self, out: &mut Out, r: usize, nr: usize, nc: usize) {
+        let op = format!("reshape {r} {nr} {nc}");
+        out.announce(&op);
+        let before = snapshot();
+        let st_before = self.reg_str(r);
+        let m = self.regs[r].as_mut().unwrap();
+        let res = catch(|| m.reshape((nr, nc)).map(|_| ()));
+        let after = snapshot();
+        if (after.cloned, after.dropped, after.created, after.defaults) != (before.cloned, before.dropped, before.created, before.defaults) {
+            out.oracle_fail(&format!("{op}: elements were cloned/dropped/created"));
+        }
+        let (order, rf) = self.refs[r].take().unwrap();
+        let size = rf.nrows * rf.ncols;
+        let valid = (nr as u128) * (nc as u128) == size as u128;
+        let new_ref = if valid { Ref::from_mem(order, nr, nc, &rf.mem(order)) } else { rf };
+        self.refs[r] = Some((order, new_ref));
+        let m = self.regs[r].as_ref().unwrap();
+        let obs = match res {
+            None => "panic".to_string(),
+            Some(Ok(())) => format!("ok | {}", st_str(m)),
+            Some(Err(e)) => format!("err {} | {}", err_name(e), st_str(m)),
+        };
+        if obs.starts_with("ok") != valid || (!valid && !obs.starts_with("err SizeMismatch")) {
+            out.oracle_fail(&format!("{op}: expected {}, implementation gave `{obs}`", if valid { "Ok" } else { "Err(SizeMismatch)" }));
+        }
+        if !obs.starts_with("ok") && self.reg_str(r) != st_before {
+            out.oracle_fail(&format!("{op}: the failed call changed the matrix from `{st_before}` to `{}`", self.reg_str(r)));
+        }
+        out.count(if valid { "reshape:valid" } else { "reshape:invalid" });
+        out.observe(&obs);
+        self.check_reg(out, r, &op);
+    }
+
+    /// resize: keeps the first min(old, new) elements of the memory-order sequence
+    pub fn resize(&mut self, out: &mut Out, r: usize, nr: usize, nc: usize) {
+        let op = format!("resize {r} {nr} {nc}");
+        out.announce(&op);
+        let before = snapshot();
+        let st_before = self.reg_str(r);
+        let es = size_of::<E>() as u128;
+        let n = (nr as u128) * (nc as u128);
+        let want: Result<(), &str> = if n > usize::MAX as u128 { Err("SizeOverflow") } else if es * n > isize::MAX as u128 { Err("CapacityOverflow") } else { Ok(()) };
+        if want.is_ok() && n > 100_000 {
+            out.observe("skipped");
+            return;
+        }
+        let m = self.regs[r].as_mut().unwrap();
+        let res = catch(|| m.resize((nr, nc)).map(|_| ()));
+        let after = snapshot();
+        let (order, rf) = self.refs[r].take().unwrap();
+        let old = rf.nrows * rf.ncols;
+        let new_ref = if want.is_ok() {
+            let mut mem = rf.mem(order);
+            mem.truncate(n as usize);
+            while mem.len() < n as usize {
+                mem.push(match E::KIND { "unit" => "u", "tok" => "d", _ => "0" }.to_string());
+            }
+            if E::KIND == "tok" {
+                let (grown, shrunk) = ((n as usize).saturating_sub(old) as u64, old.saturating_sub(n as usize) as u64);
+                // the reference's own `dflt()` calls above are accounted for
+                let made_by_ref = grown;
+                if after.defaults - before.defaults != grown || after.dropped - before.dropped != shrunk || after.cloned != before.cloned {
+                    out.oracle_fail(&format!("{op}: expected {grown} defaults and {shrunk} drops, saw {} defaults, {} drops, {} clones",
+                        after.defaults - before.defaults, after.dropped - before.dropped, after.cloned - before.cloned));
+                }
+                let _ = made_by_ref;
+            }
+            Ref::from_mem(order, nr, nc, &mem)
+        } else {
+            rf
+        };
+        self.refs[r] = Some((order, new_ref));
+        let m = self.regs[r].as_ref().unwrap();
+        let obs = match res {
+            None => "panic".to_string(),
+            Some(Ok(())) => format!("ok | {}", st_str(m)),
+            Some(Err(e)) => format!("err {} | {}", err_name(e), st_str(m)),
+        };
+        let w = match want { Ok(()) => "ok".to_string(), Err(e) => format!("err {e}") };
+        if !obs.starts_with(&w) {
+            out.oracle_fail(&format!("{op}: expected `{w}`, implementation gave `{obs}`"));
+        }
+        if !obs.starts_with("ok") && self.reg_str(r) != st_before {
+            out.oracle_fail(&format!("{op}: the failed call changed the matrix from `{st_before}` to `{}`", self.reg_str(r)));
+        }
+        out.count(&format!("resize:{}", if want.is_ok() { if (n as usize) < old { "shrink" } else if (n as usize) > old { "grow" } else { "same-size" } } else { "error" }));
+        out.observe(&obs);
+        self.check_reg(out, r, &op);
+    }
+
     /// swap_rows / swap_cols with any pair of indices
     pub fn swap_vecs(&mut self, out: &mut Out, r: usize, name: &str, a: usize, b: usize) {
         let op = format!("{name} {r} {a} {b}");
         out.announce(&op);
         let before = snapshot();
+        let st_before = self.reg_str(r);
         let m = self.regs[r].as_mut().unwrap();
         let res = catch(|| match name {
             "swap_rows" => m.swap_rows(a, b).map(|_| ()),
@@ -169,7 +276,7 @@ impl<E: Elem> World<E> {
         let (order, mut rf) = self.refs[r].take().unwrap();
         let extent = if name == "swap_rows" { rf.nrows } else { rf.ncols };
         let valid = a < extent && b < extent;
-        if valid {
+        if valid && !rf.rows.is_empty() {
             if name == "swap_rows" {
                 rf.rows.swap(a, b);
             } else {
@@ -189,6 +296,9 @@ impl<E: Elem> World<E> {
         if obs.starts_with("ok") != want_ok || (!want_ok && !obs.starts_with("err IndexOutOfBounds")) {
             out.oracle_fail(&format!("{op}: expected {}, implementation gave `{}`", if want_ok { "Ok" } else { "Err(IndexOutOfBounds)" }, obs));
         }
+        if !obs.starts_with("ok") && self.reg_str(r) != st_before {
+            out.oracle_fail(&format!("{op}: the failed call changed the matrix from `{st_before}` to `{}`", self.reg_str(r)));
+        }
         out.count(if valid { if a == b { "swap:valid-equal" } else { "swap:valid-distinct" } } else { "swap:invalid" });
         out.observe(&obs);
         self.check_reg(out, r, &op);
@@ -200,6 +310,7 @@ impl<E: Elem> World<E> {
         let op = format!("swap {r} {} {} {} {} {} {}", i.0, i.1, i.2, j.0, j.1, j.2);
         out.announce(&op);
         let before = snapshot();
+        let st_before = self.reg_str(r);
         let m = self.regs[r].as_mut().unwrap();
         let res = catch(|| match (i.0, j.0) {
             ('p', 'p') => m.swap((i.1 as usize, i.2 as usize), (j.1 as usize, j.2 as usize)).map(|_| ()),
@@ -238,6 +349,9 @@ impl<E: Elem> World<E> {
         };
         if obs.starts_with("ok") != valid || (!valid && !obs.starts_with("err IndexOutOfBounds")) {
             out.oracle_fail(&format!("{op}: expected {}, implementation gave `{}`", if valid { "Ok" } else { "Err(IndexOutOfBounds)" }, obs));
+        }
+        if !obs.starts_with("ok") && self.reg_str(r) != st_before {
+            out.oracle_fail(&format!("{op}: the failed call changed the matrix from `{st_before}` to `{}`", self.reg_str(r)));
         }
         out.count(if valid { if pi == pj { "swap-elem:same-element" } else { "swap-elem:distinct" } } else { "swap-elem:invalid" });
         out.observe(&obs);
@@ -282,5 +396,201 @@ impl<E: Elem> World<E> {
         self.regs[q] = Some(src);
         self.check_reg(out, r, &op);
         self.check_reg(out, q, &op);
+    }
+
+    pub fn reg_str(&self, r: usize) -> String {
+        match &self.regs[r] {
+            Some(m) => st_str(m),
+            None => "-".to_string(),
+        }
+    }
+}
+
+/// elementwise operations exist for token matrices only (they need the symbolic operators)
+impl World<Tok> {
+    /// reference result of an elementwise combination, or None when the shapes differ
+    fn ew_ref(&self, a: usize, b: usize, f: &dyn Fn(&str, &str) -> String) -> Option<Ref> {
+        let (_, ra) = self.refs[a].as_ref().unwrap();
+        let (_, rb) = self.refs[b].as_ref().unwrap();
+        if (ra.nrows, ra.ncols) != (rb.nrows, rb.ncols) {
+            return None;
+        }
+        if ra.nrows == 0 || ra.ncols == 0 {
+            return Some(Ref { nrows: ra.nrows, ncols: ra.ncols, rows: Vec::new() });
+        }
+        Some(Ref {
+            nrows: ra.nrows,
+            ncols: ra.ncols,
+            rows: (0..ra.nrows).map(|i| (0..ra.ncols).map(|j| f(&ra.rows[i][j], &rb.rows[i][j])).collect()).collect(),
+        })
+    }
+
+    /// `ew dst a b variant opname` — named methods (add..rem) and the generic operation with a
+    /// recording closure (gen), in the three ownership variants
+    pub fn ew(&mut self, out: &mut Out, dst: usize, a: usize, b: usize, variant: &str, opname: &str) {
+        let op = format!("ew {dst} {a} {b} {variant} {opname}");
+        out.announce(&op);
+        let st_before = self.reg_str(a);
+        let sym = match opname { "add" => "+", "sub" => "-", "mul" => "*", "div" => "/", "rem" => "%", _ => "|" };
+        let spec: Box<dyn Fn(&str, &str) -> String> = if opname == "gen" {
+            Box::new(|l: &str, r: &str| format!("[{l}|{r}]"))
+        } else if variant == "ref" {
+            Box::new(move |l: &str, r: &str| format!("({l}'{sym}{r}')"))
+        } else {
+            Box::new(move |l: &str, r: &str| format!("({l}{sym}{r}')"))
+        };
+        let want = self.ew_ref(a, b, &*spec);
+        let mb = self.regs[b].take().unwrap();
+        let calls = std::cell::Cell::new(0usize);
+        let n_elems = self.regs[a].as_ref().unwrap().size();
+        let (res, a_order): (Option<Result<Option<matreex::Matrix<Tok>>, matreex::Error>>, matreex::Order) = match variant {
+            "ref" => {
+                let ma = self.regs[a].as_ref().unwrap();
+                let r = catch(|| match opname {
+                    "add" => ma.elementwise_add(&mb),
+                    "sub" => ma.elementwise_sub(&mb),
+                    "mul" => ma.elementwise_mul(&mb),
+                    "div" => ma.elementwise_div(&mb),
+                    "rem" => ma.elementwise_rem(&mb),
+                    _ => ma.elementwise_operation(&mb, |l, r| { calls.set(calls.get() + 1); Tok::new(format!("[{}|{}]", l.val, r.val)) }),
+                });
+                (r.map(|x| x.map(Some)), ma.order())
+            }
+            "consume" => {
+                let ma = self.regs[a].take().unwrap();
+                let o = ma.order();
+                let r = catch(|| match opname {
+                    "add" => ma.elementwise_add_consume_self(&mb),
+                    "sub" => ma.elementwise_sub_consume_self(&mb),
+                    "mul" => ma.elementwise_mul_consume_self(&mb),
+                    "div" => ma.elementwise_div_consume_self(&mb),
+                    "rem" => ma.elementwise_rem_consume_self(&mb),
+                    _ => ma.elementwise_operation_consume_self(&mb, |l, r| { calls.set(calls.get() + 1); Tok::new(format!("[{}|{}]", l.val, r.val)) }),
+                });
+                self.refs[a] = None;
+                (r.map(|x| x.map(Some)), o)
+            }
+            _ => {
+                let ma = self.regs[a].as_mut().unwrap();
+                let o = ma.order();
+                let r = catch(|| match opname {
+                    "add" => ma.elementwise_add_assign(&mb).map(|_| ()),
+                    "sub" => ma.elementwise_sub_assign(&mb).map(|_| ()),
+                    "mul" => ma.elementwise_mul_assign(&mb).map(|_| ()),
+                    "div" => ma.elementwise_div_assign(&mb).map(|_| ()),
+                    "rem" => ma.elementwise_rem_assign(&mb).map(|_| ()),
+                    _ => ma.elementwise_operation_assign(&mb, |l, r| { calls.set(calls.get() + 1); l.val = format!("[{}|{}]", l.val, r.val); }).map(|_| ()),
+                });
+                (r.map(|x| x.map(|_| None)), o)
+            }
+        };
+        self.regs[b] = Some(mb);
+        let head = match &res {
+            None => "panic".to_string(),
+            Some(Err(e)) => format!("err {}", err_name(*e)),
+            Some(Ok(_)) => "ok".to_string(),
+        };
+        // oracle: Ok exactly for equal logical shapes, ShapeNotConformable otherwise
+        match (&want, head.as_str()) {
+            (Some(_), "ok") | (None, "err ShapeNotConformable") => {}
+            _ => out.oracle_fail(&format!("{op}: shapes {} but implementation gave `{head}`", if want.is_some() { "agree" } else { "differ" })),
+        }
+        if opname == "gen" {
+            let expect_calls = if want.is_some() { n_elems } else { 0 };
+            if calls.get() != expect_calls {
+                out.oracle_fail(&format!("{op}: closure called {} times for {} positions", calls.get(), expect_calls));
+            }
+        }
+        if let Some(Ok(m)) = res {
+            match variant {
+                "assign" => {
+                    if let Some(w) = want { self.refs[a] = Some((a_order, w)); }
+                }
+                _ => {
+                    self.regs[dst] = m;
+                    self.refs[dst] = want.map(|w| (a_order, w));
+                }
+            }
+        }
+        if variant == "assign" && head != "ok" && self.reg_str(a) != st_before {
+            out.oracle_fail(&format!("{op}: the failed call changed the matrix from `{st_before}` to `{}`", self.reg_str(a)));
+        }
+        out.count(&format!("ew:{}", if head == "ok" { "conformable" } else { "not-conformable" }));
+        out.observe(&format!("{head} | {} | {} | {}", self.reg_str(dst), self.reg_str(a), self.reg_str(b)));
+        for r in [dst, a, b] {
+            self.check_reg(out, r, &op);
+        }
+    }
+
+    /// `ewop dst a b sym form`: the + and - operators, form = o/b (owned/borrowed) for self and rhs
+    pub fn ewop(&mut self, out: &mut Out, dst: usize, a: usize, b: usize, sym: char, form: &str) {
+        let op = format!("ewop {dst} {a} {b} {sym} {form}");
+        out.announce(&op);
+        let self_owned = form.starts_with('o');
+        let rhs_owned = form.ends_with('o');
+        let spec: Box<dyn Fn(&str, &str) -> String> = if self_owned {
+            Box::new(move |l: &str, r: &str| format!("({l}{sym}{r}')"))
+        } else {
+            Box::new(move |l: &str, r: &str| format!("({l}'{sym}{r}')"))
+        };
+        let want = self.ew_ref(a, b, &*spec);
+        let a_order = self.regs[a].as_ref().unwrap().order();
+        let res: Option<matreex::Matrix<Tok>> = match (self_owned, rhs_owned, sym) {
+            (true, true, '+') => { let x = self.regs[a].take().unwrap(); let y = self.regs[b].take().unwrap(); catch(|| x + y) }
+            (true, false, '+') => { let x = self.regs[a].take().unwrap(); let y = self.regs[b].as_ref().unwrap(); catch(|| x + y) }
+            (false, true, '+') => { let y = self.regs[b].take().unwrap(); let x = self.regs[a].as_ref().unwrap(); catch(|| x + y) }
+            (false, false, '+') => { let x = self.regs[a].as_ref().unwrap(); let y = self.regs[b].as_ref().unwrap(); catch(|| x + y) }
+            (true, true, _) => { let x = self.regs[a].take().unwrap(); let y = self.regs[b].take().unwrap(); catch(|| x - y) }
+            (true, false, _) => { let x = self.regs[a].take().unwrap(); let y = self.regs[b].as_ref().unwrap(); catch(|| x - y) }
+            (false, true, _) => { let y = self.regs[b].take().unwrap(); let x = self.regs[a].as_ref().unwrap(); catch(|| x - y) }
+            (false, false, _) => { let x = self.regs[a].as_ref().unwrap(); let y = self.regs[b].as_ref().unwrap(); catch(|| x - y) }
+        };
+        if self_owned { self.refs[a] = None; }
+        if rhs_owned { self.refs[b] = None; }
+        let head = if res.is_some() { "ok" } else { "panic" };
+        if res.is_some() != want.is_some() {
+            out.oracle_fail(&format!("{op}: shapes {} but the operator {}", if want.is_some() { "agree" } else { "differ" }, if res.is_some() { "returned" } else { "panicked" }));
+        }
+        if let Some(m) = res {
+            self.regs[dst] = Some(m);
+            self.refs[dst] = want.map(|w| (a_order, w));
+        }
+        out.count(&format!("ewop:{}", head));
+        out.observe(&format!("{head} | {} | {} | {}", self.reg_str(dst), self.reg_str(a), self.reg_str(b)));
+        for r in [dst, a, b] {
+            self.check_reg(out, r, &op);
+        }
+    }
+
+    /// `ewopassign a b sym form`: += / -= with an owned (o) or borrowed (b) right operand
+    pub fn ewopassign(&mut self, out: &mut Out, a: usize, b: usize, sym: char, form: &str) {
+        let op = format!("ewopassign {a} {b} {sym} {form}");
+        out.announce(&op);
+        let st_before = self.reg_str(a);
+        let spec = move |l: &str, r: &str| format!("({l}{sym}{r}')");
+        let want = self.ew_ref(a, b, &spec);
+        let a_order = self.regs[a].as_ref().unwrap().order();
+        let mut x = self.regs[a].take().unwrap();
+        let res = if form == "o" {
+            let y = self.regs[b].take().unwrap();
+            self.refs[b] = None;
+            if sym == '+' { catch(|| x += y) } else { catch(|| x -= y) }
+        } else {
+            let y = self.regs[b].as_ref().unwrap();
+            if sym == '+' { catch(|| x += y) } else { catch(|| x -= y) }
+        };
+        self.regs[a] = Some(x);
+        let head = if res.is_some() { "ok" } else { "panic" };
+        if res.is_some() != want.is_some() {
+            out.oracle_fail(&format!("{op}: shapes {} but the operator {}", if want.is_some() { "agree" } else { "differ" }, if res.is_some() { "returned" } else { "panicked" }));
+        }
+        if let Some(w) = want { self.refs[a] = Some((a_order, w)); }
+        if head != "ok" && self.reg_str(a) != st_before {
+            out.oracle_fail(&format!("{op}: the panicking operator changed the matrix from `{st_before}` to `{}`", self.reg_str(a)));
+        }
+        out.observe(&format!("{head} | {} | {} | {}", self.reg_str(a), self.reg_str(a), self.reg_str(b)));
+        for r in [a, b] {
+            self.check_reg(out, r, &op);
+        }
     }
 }
